@@ -65,6 +65,9 @@ func c16Options(r *rand.Rand, maxPop int, manySpecies bool) *neat.Options {
 	o.BabiesStolen = []int{0, o.PopSize / 5, o.PopSize / 3, o.PopSize / 2}[r.Intn(4)]
 	o.DropOffAge = []int{2, 5, 15}[r.Intn(3)]
 	o.EpochExecutorType = neat.EpochExecutorTypeParallel
+	if r.Intn(6) == 0 {
+		o.NewLinkTries = 0 // the field left unset by a caller that builds options in code
+	}
 	return o
 }
 
